@@ -6,11 +6,14 @@ SEED=$1; TIER=$2; shift 2
 cd /verif
 if ! git -C /repo diff --quiet; then echo "refusing: /repo has local changes"; exit 3; fi
 git -C /repo apply "$SEED/patch.diff" || { echo "patch does not apply"; exit 3; }
+# evidence of a run against a CHANGED tree never goes to /verif/evidence (that directory holds runs on /repo as it is)
+EV=$(mktemp -d /tmp/seedrun-ev.XXXXXX)
 for id in "$@"; do
-  bin/vcheck "$id" "$TIER" > /tmp/seedrun-$id.log 2>&1
+  VERIF_EVIDENCE_DIR="$EV" bin/vcheck "$id" "$TIER" > /tmp/seedrun-$id.log 2>&1
   rc=$?
   echo "== $id $TIER rc=$rc : $(grep -c '^VIOLATION' /tmp/seedrun-$id.log) violation lines"
   grep '^VIOLATION\|^  key=\|^SUMMARY\|VERIF-ERROR' /tmp/seedrun-$id.log | head -12
 done
 git -C /repo checkout -- .
+rm -rf "$EV"
 git -C /repo status --short | head
